@@ -169,7 +169,23 @@ type qadvPlan struct {
 	action int
 }
 
+// sickPlan is one sacrificial raw dial to the shared-TCP listener before the real connection: the dialer sends the first
+// `bytes` bytes of a connection (of a multistream header, or garbage) and then the connection ends the way drawn, so that
+// sampledconn's three-byte peek meets EOF after 0/1/2 bytes, a reset, or bytes it cannot classify.
+type sickPlan struct {
+	bytes   int  // 0..4
+	garbage bool // not the beginning of "\x13/multistream/1.0.0\n"
+	end     int  // 0 = dialer closes, 1 = dialer half-closes and closes later, 2 = the listener's end sees a reset at its k-th I/O call
+	k       int  // 1..3
+}
+
 type plan struct {
+	// TCP mux / host layers, drawn last: the LISTENING node runs the real TcpTransport.Listen with a tcpreuse.ConnMgr -
+	// demultiplexing listener and sampledconn (three bytes peeked and handed back) under everything it reads
+	sharedTCP bool
+	peekTiny  bool // ... and the first deliveries to the listener's end are 1-3 bytes each (the peek meets short reads)
+	sick      []sickPlan
+
 	udp      udpPlan
 	qadv     qadvPlan
 	heal     time.Duration // QUIC layer: wire faults and the adversary stop this long after the data phase began
@@ -197,6 +213,9 @@ func (p *plan) describe() []string {
 			qa = fmt.Sprintf("%s on %d permille of the datagrams", qadvName[p.qadv.action], p.qadv.rate)
 		}
 		out = append(out, fmt.Sprintf("  QUIC wire during the data phase: loss=%d/1000 duplication=%d/1000 latencies=%v adversary=[%s]; all of it stops %v after the data phase began", p.udp.drop, p.udp.dup, p.udp.lat, qa, p.heal))
+	}
+	if p.sharedTCP {
+		out = append(out, fmt.Sprintf("  listener B: shared TCP (tcpreuse demultiplexer + sampledconn peek); first deliveries to it 1-3 bytes: %v; sick dials before the real one: %+v", p.peekTiny, p.sick))
 	}
 	out = append(out, fmt.Sprintf("  raw endpoints return (n>0, io.EOF) for the last bytes: A=%v B=%v", p.ewd[0], p.ewd[1]))
 	for i, sp := range p.sac {
@@ -285,6 +304,16 @@ func genPlan(g simrt.Gen) *plan {
 	p.ewd[0], p.ewd[1] = g.Chance(1, 3), g.Chance(1, 3)
 	if p.layer == layNoise || p.layer == layMuxNoise || p.layer == layHostNoise {
 		genSac(g, p)
+	}
+	// drawn last so that every earlier draw keeps its meaning
+	if !isConnLayer(p.layer) {
+		p.sharedTCP = g.Bool()
+		if p.sharedTCP {
+			p.peekTiny = g.Bool()
+			for k := g.Weighted(3, 2, 1); k > 0; k-- {
+				p.sick = append(p.sick, sickPlan{bytes: g.Int(5), garbage: g.Chance(1, 3), end: g.Int(3), k: 1 + g.Int(3)})
+			}
+		}
 	}
 	return p
 }
